@@ -33,7 +33,8 @@ def canon_real(r):
 def same_path_one(chk, sseed):
     """hash-seed-dependent queue order: one pool path is queued twice with different sizes (a stale index next to a current one
     lists the same file; both entries survive in the pool-file *set*, whose iteration order depends on PYTHONHASHSEED).  The
-    server always announces the true size, so the stale entry's attempts are rejected before anything is written.  Every queue
+    server announces the true size (the stale entry's attempts are rejected before anything is written) or no size at all (they
+    rewrite the file and are rejected afterwards; the per-path lock and the retry of the true entry keep the result the same).  Every queue
     order x schedule must give the same tree, error status and error count (seed agent-C15-16: entries whose path was already
     dequeued are skipped - which of the two is transferred then depends on the order)."""
     from core.transport import Resp, gen_content
@@ -50,8 +51,11 @@ def same_path_one(chk, sseed):
         descs.append({"ctor": ["from_path", o, True, False], "adds": [[o, osizes[o], None, None, False]], "ignore_errors": False, "pool": True})
     date = rng.choice(l1.DATES)
 
+    announce = rng.random() < 0.6    # without a Content-Length the stale entry's attempts rewrite the file before they are rejected
+
     def script(n, tag):
-        return [Resp("ok", announced=n, date=date, data=gen_content(tag, n), chunks=l1.split_chunks(rng, n), tag=tag) for _ in range(25)]
+        return [Resp("ok", announced=(n if announce else None), date=date, data=gen_content(tag, n), chunks=l1.split_chunks(rng, n), tag=tag)
+                for _ in range(25)]
     scripts = {path: script(size, 5)}
     for k, o in enumerate(others):
         scripts[o] = script(osizes[o], 10 + k)
